@@ -36,6 +36,11 @@ def hxr(test, quick, thorough, shards=8, **kw):
     d.update(kw)
     return d
 
+def vt(test, quick, thorough, shards=16, **kw):
+    d = {"bin": "vt", "test": test, "quick": quick, "thorough": thorough, "shards_thorough": shards}
+    d.update(kw)
+    return d
+
 
 TRUST = "trusts go-statemachine's in-order delivery of notifications (used to observe which events were applied), the recording doubles of the harness and rapid's generators/shrinker"
 
@@ -89,7 +94,8 @@ prop("C12", "Wire format is lossless, stable and safe to decode", "exploration",
      [{"bin": "wire", "test": "TestC12_RoundTrip", "quick": 60000, "thorough": 3200000, "shards_thorough": 16},
       {"bin": "wire", "test": "TestC12_Hostile", "quick": 90000, "thorough": 6400000, "shards_thorough": 16},
       {"bin": "wire", "test": "TestC12_Seeds", "quick": 1, "thorough": 1, "rapid": False},
-      {"bin": "wire", "test": "FuzzFromNet", "gofuzz": True, "tiers": ["thorough"], "fuzztime_thorough": 300}],
+      {"bin": "wire", "test": "FuzzFromNet", "gofuzz": True, "tiers": ["thorough"], "fuzztime_thorough": 300},
+      vt("TestC15_Inbound", 12000, 1600000)],
      ["ValidationResultResponse is exercised with the message types a response can have (new, update, cancel, complete, voucher-result, restart)",
       "message type numbers and schema key names are literals in the harness, i.e. what deployed peers expect"],
      "generated messages over the full value space and generated hostile inputs; native fuzzing in the thorough tier; sampled, not exhaustive",
@@ -102,11 +108,6 @@ prop("C13", "Stored channels survive schema migration unchanged", "exploration",
       "the readiness 'once' check waits 2 ms for a duplicate call after all listeners have been called"],
      "generated version-2 stores (every status incl. the deprecated ones, arbitrary field values, 0..6 channels); sampled",
      "trusts the harness's own CBOR writer for the version-2 layout")
-
-def vt(test, quick, thorough, shards=16, **kw):
-    d = {"bin": "vt", "test": test, "quick": quick, "thorough": thorough, "shards_thorough": shards}
-    d.update(kw)
-    return d
 
 
 prop("C14", "Channel monitor: restarts serialized and bounded; one verdict per channel", "exploration", "mon",
